@@ -39,6 +39,7 @@ ABSTRACTS["AbsDiGraph"] = {
 }
 ABSTRACTS["AbsGraph"] = {
     "number_of_vertices": ([], INT, False),
+    "order": ([], INT, False),
     "number_of_edges": ([], INT, False),
     "vertices": ([], RANGE, False),
     "neighbors": ([INT], TList(INT), True),
@@ -46,7 +47,7 @@ ABSTRACTS["AbsGraph"] = {
     "has_edge": ([INT, INT], BOOL, False),
     "edges": ([], TList(TTuple([INT, INT])), False),
 }
-ABS_ISINSTANCE = {"AbsBipGraph": ("BaseBipartiteGraph",)}
+ABS_ISINSTANCE = {"AbsBipGraph": ("BaseBipartiteGraph",), "AbsGraph": ("Graph",)}
 # driver side: Lean parser (type `P <interface>`) per abstract interface; python encoders are in py2lean_selftest.py
 ABS_PARSERS = {
     "AbsFormula": "(do let n ← int; pure (AbsFormula.mk n))",
@@ -104,6 +105,19 @@ EFFECTS = {
             "add_strict_majority": _lits_check("add_strict_majority"),
             "add_strict_minority": _lits_check("add_strict_minority"),
         },
+    },
+}
+# a BipartiteGraph object that a translated constructor builds and then hands to a variable group: the model's own
+# object (Graph/Basic.lean, property C16) as the state; `BipartiteGraph(L, R)` creates it (functions that list the class
+# in "effect_ctors"; elsewhere the class is a BUILDER whose commands are logged)
+EFFECTS["BipartiteGraph"] = {
+    "lean": "BipG", "new": None,
+    "ctor": {"lean": "BipG.initI", "params": [INT, INT], "raises": True},
+    "views": {"AbsBipGraph": "(Cnfgen.Vars.absBip {c})"},
+    "methods": {
+        "add_edge": {"lean": "BipG.addEdge", "params": [("u", INT), ("v", INT)], "ret": None, "raises": True},
+        "has_edge": {"lean": "BipG.hasEdge", "params": [("u", INT), ("v", INT)], "ret": BOOL, "raises": False},
+        "number_of_edges": {"lean": "Cnfgen.Vars.bipNumberOfEdges", "params": [], "ret": INT, "raises": False},
     },
 }
 FORMULA = TEffect("Formula", "PyF.FState")
@@ -167,6 +181,7 @@ ITEMS = [
          "__call__": {"params": {"index": TList(TOpt(INT))}, "vararg": "index"},
          "to_index": {"params": {"lit": INT}},
          "__getitem__": {"params": {"choices": INT}, "lean": "getitem"},
+         "to_dict": {"params": {}},
      }},
     {"file": VARS, "class": "SingletonVariableGroup", "property": "C11",
      "methods": {
@@ -187,11 +202,17 @@ ITEMS = [
          "indices": {"params": {"pattern": TList(TOpt(INT))}, "vararg": "pattern"},
          "_unsafe_index_to_lit": {"params": {"index": TList(INT)}, "lean": "index_to_lit"},
      }},
-    {"file": VARS, "class": "GraphEdgesVariables", "property": "C11",
-     "fields": {"BG": TObj("BipartiteEdgesVariables")},
+    {"file": VARS, "class": "GraphEdgesVariables", "property": "C11", "effect_ctors": ["BipartiteGraph"],
      "methods": {
+         "__init__": {"params": {"formula": TAbs("AbsFormula"), "G": TAbs("AbsGraph"), "labelfmt": ERASED},
+                      "fields_if_unsupported": {"BG": TObj("BipartiteEdgesVariables")}},
          "to_index": {"params": {"lit": INT}},
          "_unsafe_index_to_lit": {"params": {"index": TList(INT)}, "lean": "index_to_lit"},
+         "indices": {"params": {"pattern": TList(TOpt(INT))}, "vararg": "pattern"},
+         "__call__": {"params": {"index": TList(TOpt(INT))}, "vararg": "index"},
+         "__len__": {"params": {}},
+         "__contains__": {"params": {"lit": INT}},
+         "__getitem__": {"params": {"choices": INT}, "lean": "getitem"},
      }},
     # ---- C04: normalisation of a pseudo-Boolean constraint `[(coeff, lit), …, op, value]`
     {"file": "cnfgen/formula/baseopb.py", "function": "normalize_opb", "property": "C04",
@@ -237,7 +258,9 @@ ITEMS = [
              {"lean": "add_variable_group_binary", "params": {"vg": TObj("BinaryMappingVariables")}},
              {"lean": "add_variable_group_block", "params": {"vg": TObj("BlockOfVariables")}},
              {"lean": "add_variable_group_word", "params": {"vg": TObj("WordOfIndicesVariables")}},
+             {"lean": "add_variable_group_graph", "params": {"vg": TObj("GraphEdgesVariables")}},
          ],
+         "new_graph_edges": {"params": {"G": TAbs("AbsGraph"), "label": ERASED}},
          "new_combinations": {"params": {"n": INT, "k": INT, "label": ERASED}},
          "new_combinations_with_replacement": {"params": {"n": INT, "k": INT, "label": ERASED}},
          "new_permutations": {"params": {"n": INT, "k": TOpt(INT), "label": ERASED}},
@@ -250,6 +273,7 @@ ITEMS = [
                                     {"lean": "force_complete_mapping_binary", "params": {"f": TObj("BinaryMappingVariables")}}],
          "force_functional_mapping": [{"lean": "force_functional_mapping_unary", "params": {"f": TObj("UnaryMappingVariables")}}],
          "force_surjective_mapping": [{"lean": "force_surjective_mapping_unary", "params": {"f": TObj("UnaryMappingVariables")}}],
+         "force_nondecreasing_mapping": [{"lean": "force_nondecreasing_mapping_unary", "params": {"f": TObj("UnaryMappingVariables")}}],
          "force_injective_mapping": [{"lean": "force_injective_mapping_unary", "params": {"f": TObj("UnaryMappingVariables")}},
                                      {"lean": "force_injective_mapping_binary", "params": {"f": TObj("BinaryMappingVariables")}}],
      }},
@@ -277,6 +301,23 @@ ITEMS = [
      "params": {"s": INT, "k": INT, "N": INT, "formula_class": TEffectClass("Formula")}},
     {"file": "cnfgen/families/counting.py", "function": "CountingPrinciple", "property": "C01",
      "params": {"M": INT, "p": INT, "formula_class": TEffectClass("Formula")}},
+    {"file": "cnfgen/families/counting.py", "function": "PerfectMatchingPrinciple", "property": "C01",
+     "erased_locals": ["description"],
+     "params": {"G": TAbs("AbsGraph"), "formula_class": TEffectClass("Formula")}},
+    {"file": "cnfgen/families/coloring.py", "function": "GraphColoringFormula", "property": "C02",
+     "erased_locals": ["description"],
+     "params": {"G": TAbs("AbsGraph"), "colors": INT, "functional": BOOL, "formula_class": TEffectClass("Formula")}},
+    {"file": "cnfgen/families/coloring.py", "function": "EvenColoringFormula", "property": "C02",
+     "erased_locals": ["description"],
+     "params": {"G": TAbs("AbsGraph"), "formula_class": TEffectClass("Formula")}},
+    {"file": "cnfgen/families/tseitin.py", "function": "TseitinFormula", "property": "C02",
+     "erased_locals": ["description", "parity"],
+     "params": {"G": TAbs("AbsGraph"), "charges": TOpt(TList(BOOL)), "formula_class": TEffectClass("Formula")}},
+    {"file": "cnfgen/families/subgraph.py", "function": "non_edges", "property": "C02",
+     "params": {"G": TAbs("AbsGraph")}},
+    {"file": "cnfgen/families/subgraph.py", "function": "CliqueFormula", "property": "C02",
+     "erased_locals": ["description"],
+     "params": {"G": TAbs("AbsGraph"), "k": INT, "symbreak": BOOL, "formula_class": TEffectClass("Formula")}},
     {"file": "cnfgen/families/ramsey.py", "function": "PythagoreanTriples", "property": "C03",
      "params": {"N": INT, "formula_class": TEffectClass("Formula")}},
 ]
